@@ -118,4 +118,21 @@ theorem C12_stream {vs w} (h : ReachS vs w) :
     (suspKeys w.tree).Perm (List.range' 1 (w.st.nextSusp - 1)) :=
   ⟨C12_keys_nodup h.reach, (C12_keys_dense h.reach).1, (C12_suspense_keys h.reach).1⟩
 
+/-! ### the statements are not vacuous: a concrete render
+
+`<div><Suspense><p/><Async task=0><span>t0</span>{res 5}</Async></Suspense><b/></div>`, blocking, task 0
+completes: the body takes the next key `1.1` of the boundary's registry. -/
+
+def exKeysView : AVs :=
+  avs [.el 0 (avs [.susp (avs [.el 1 .nil, .acomp 0 (avs [.el 2 (avs [.text 0]), .res 5])]), .el 3 .nil])]
+
+example : elKeys (World.start .block exKeysView).tree = [(0, 0), (0, 1), (0, 2), (1, 0), (0, 3)] := by
+  decide +kernel
+example : elKeys (run (World.start .block exKeysView) [.c 0]).tree =
+    [(0, 0), (0, 1), (0, 2), (1, 0), (1, 1), (0, 3)] := by decide +kernel
+example : (run (World.start .block exKeysView) [.c 0]).st.regs = [4, 2] := by decide +kernel
+example : suspKeys (run (World.start .block exKeysView) [.c 0]).tree = [1] := by decide +kernel
+example : elKeys (World.start .sync exKeysView).tree = [(0, 0), (0, 1)] ∧
+    suspKeys (World.start .sync exKeysView).tree = [] := by decide +kernel
+
 end SycVerif.Assr
